@@ -33,17 +33,22 @@ NameStr == << <<46,99,111,110,102>>,                   \* 1 .conf        (exactl
               <<97,46,99,111,110,102>>,                 \* 6 a.conf
               <<97,46,99,111,110,102,46,98,97,107>>,    \* 7 a.conf.bak   (does not end with the suffix)
               <<99,111,110,102>>,                       \* 8 conf         (shorter than the suffix)
-              <<195,169,46,99,111,110,102>> >>          \* 9 e-acute.conf (UTF-8 bytes >= 0x80 sort AFTER all ASCII names)
-NNames == 9
+              <<195,169,46,99,111,110,102>>,            \* 9 e-acute.conf (UTF-8 bytes >= 0x80 sort AFTER all ASCII names)
+              <<43,122,46,99,111,110,102>>,             \* 10 +z.conf    (first byte below '.': listed BEFORE the entries . and ..)
+              <<46,45,120,46,99,111,110,102>> >>        \* 11 .-x.conf   (listed between . and ..)
+NNames == 11
 Suffix == <<46,99,111,110,102>>
-ASSUME \A i \in 1..(NNames-1) : ByteLess(NameStr[i], NameStr[i+1])
+\* names 1..9 are numbered in byte order; 10 and 11 were added later and sort in front of them: the order inside a directory is
+\* NameLess (byte-wise, what alphasort gives in the C locale), not the number
+ASSUME \A i \in 1..8 : ByteLess(NameStr[i], NameStr[i+1])
+NameLess(x, y) == ByteLess(NameStr[x], NameStr[y])
 \* check_conf_dir: strictly longer than the suffix and ending with it
 Carries(n) == Len(Suffix) < Len(NameStr[n]) /\ EndsWith(NameStr[n], Suffix)
 
 File(l, r) == [l |-> l, r |-> r]
 
 \* ---------- content by identity ----------
-Digit(n) == 48 + n
+Digit(n) == IF n < 10 THEN 48 + n ELSE 87 + n        \* 0..9, then a, b, ...
 IdVal(f) == <<Digit(f.l), Digit(f.r)>>
 UKey(f)  == <<85, Digit(f.l), Digit(f.r)>>               \* "U<l><r>"
 KKey     == <<75>>                                        \* "K"
@@ -79,9 +84,9 @@ IsDangling(tree, f) == f.r = 0 /\ tree.main[f.l] = "dangling"
 Real(tree, K) == SelectSeq(K, LAMBDA f : ~IsDangling(tree, f))
 \* postfix directory of drop-in n in layer i (CONFIG_DIRS / econf_set_conf_dirs lists): 1 unless the tree says otherwise
 PdOf(tree, i, n) == IF "pd" \in DOMAIN tree THEN tree.pd[i][n] ELSE 1
-\* inside a layer: postfix directories in list order, inside a directory alphasort = index order
+\* inside a layer: postfix directories in list order, inside a directory alphasort = byte order of the names
 DropsOf(tree, i) == LET s == SetToSortSeq({n \in tree.drop[i] : Carries(n)},
-                                          LAMBDA x, y : PdOf(tree, i, x) < PdOf(tree, i, y) \/ (PdOf(tree, i, x) = PdOf(tree, i, y) /\ x < y)) IN
+                                          LAMBDA x, y : PdOf(tree, i, x) < PdOf(tree, i, y) \/ (PdOf(tree, i, x) = PdOf(tree, i, y) /\ NameLess(x, y))) IN
                     [j \in 1..Len(s) |-> File(i, s[j])]
 RECURSIVE AllDrops(_, _)
 AllDrops(tree, i) == IF i > NLy(tree) THEN <<>> ELSE DropsOf(tree, i) \o AllDrops(tree, i + 1)
@@ -148,7 +153,7 @@ Effective(tree) == {<<i, n>> \in (1..NLy(tree)) \X (1..NNames) :
                       n \in tree.drop[i] /\ Carries(n) /\ \A j \in (i+1)..NLy(tree) : n \notin tree.drop[j]}
 \* ascending by layer, then postfix directory (list order: "the last entry has the highest priority"), then name
 EffSeq(tree) == SetToSortSeq(Effective(tree), LAMBDA x, y : x[1] < y[1] \/ (x[1] = y[1] /\
-                     (PdOf(tree, x[1], x[2]) < PdOf(tree, y[1], y[2]) \/ (PdOf(tree, x[1], x[2]) = PdOf(tree, y[1], y[2]) /\ x[2] < y[2]))))
+                     (PdOf(tree, x[1], x[2]) < PdOf(tree, y[1], y[2]) \/ (PdOf(tree, x[1], x[2]) = PdOf(tree, y[1], y[2]) /\ NameLess(x[2], y[2])))))
 NothingThere(tree) == HasMain(tree) = {} /\ \A i \in 1..NLy(tree) : {n \in tree.drop[i] : Carries(n)} = {}
 EmptyMap == [p \in {} |-> <<>>]
 UapiRef(tree) == IF NothingThere(tree) THEN [rc |-> "ECONF_NOFILE", map |-> EmptyMap]
